@@ -39,6 +39,9 @@ pub struct NodeSetup {
     /// start from "knows every other participant as Alive" before the generated knowledge is applied
     #[serde(default)]
     pub mesh: bool,
+    /// own incarnation the node starts with (reached the legitimate way: a refuted suspicion)
+    #[serde(default)]
+    pub own_inc: u16,
 }
 
 #[derive(Clone, Debug, Serialize, Deserialize)]
@@ -93,6 +96,9 @@ pub fn exec(c: &C18Case, out: &mut CaseOut) -> Result<(), Fail> {
     let mut mutual_down = vec![vec![false; k]; k];
     // mutual knowledge through real calls (effects of these calls are discarded: they are not part of the cascade)
     for (i, s) in c.nodes.iter().enumerate() {
+        if s.own_inc > 0 {
+            insts[i].raw_call(&Call::ApplyMany(vec![Member::new(ids0[i], s.own_inc - 1, State::Suspect)], false));
+        }
         if s.mesh {
             let all: Vec<Member<Id>> = (0..k).filter(|j| *j != i).map(|j| Member::new(ids0[j], 0, State::Alive)).collect();
             insts[i].raw_call(&Call::ApplyMany(all, false));
@@ -283,8 +289,9 @@ impl Part for CascadePart {
             prop_oneof![5 => Just(false), 1 => Just(true)],
             0..3u8,
             prop_oneof![3 => Just(true), 1 => Just(false)],
+            prop_oneof![4 => Just(0u16), 3 => 1..4u16, 1 => Just(u16::MAX - 1), 1 => Just(u16::MAX)],
         )
-            .prop_map(|((gen, renew, notify_down, max_tx, num_indirect, rng_seed), knows, third, leave, items, mesh)| NodeSetup { gen: gen + 1, renew, notify_down, max_tx, num_indirect, rng_seed, knows, third, leave, items, mesh });
+            .prop_map(|((gen, renew, notify_down, max_tx, num_indirect, rng_seed), knows, third, leave, items, mesh, own_inc)| NodeSetup { gen: gen + 1, renew, notify_down, max_tx, num_indirect, rng_seed, knows, third, leave, items, mesh, own_inc });
         let trigger = prop_oneof![
             12 => (0..3u8, 0..3u8, 0..11u8, prop_oneof![6 => Just(0i8), 1 => Just(-1i8), 1 => Just(1i8)], prop_oneof![8 => Just(0i8), 1 => Just(-1i8), 1 => Just(1i8)], 0..3u8, any::<u8>(), proptest::collection::vec(know, 0..4))
                 .prop_map(|(from, to, kind, src_gen_delta, dst_gen_delta, third, probe_no, updates)| Trigger::Datagram { from, to, kind, src_gen_delta, dst_gen_delta, third, probe_no, updates }),
